@@ -196,7 +196,13 @@ def s1_templates(ctx):
                   'the row written is not the zero-initialised row that received the block')
         if okz:
             shp_t = base[4]
-            ctx.check(is_t(shp_t) and shp_t[1] == 'tuple' and shp_t[3] == T('NCH'), 'C12.S1', f, il, 'a row spans all merged channels', 'a row does not span the merged channel count')
+            span_ok = is_t(shp_t) and shp_t[1] == 'tuple' and shp_t[3] == T('NCH')
+            # recognised wrong extents: a constant, or the channel count of one probe's table (`<x>.shape[2]`); anything else (e.g. a component of a shape tuple
+            # computed by a helper) is not followed
+            span_bad = is_t(shp_t) and shp_t[1] == 'tuple' and len(shp_t) > 3 and (is_c(shp_t[3]) or (
+                is_t(shp_t[3]) and shp_t[3][1] == 'index' and shp_t[3][3] == C(2) and is_t(shp_t[3][2]) and shp_t[3][2][1] == 'attr' and shp_t[3][2][3] == 'shape'))
+            ctx.tri(span_ok, span_bad, 'C12.S1', f, il, 'a row spans all merged channels', 'a row does not span the merged channel count',
+                    'the channel extent of a row (%s) was not recognised as the merged channel count' % (show(shp_t[3])[:60] if is_t(shp_t) and len(shp_t) > 3 else show(shp_t)[:60]))
         if not (is_t(key) and key[1] == 'tuple' and len(key) == 4 and key[2] == T('slice3', C(None), C(None), C(None)) and is_t(key[3]) and key[3][1] == 'slice3'):
             ctx.undecided('C12.S1', f, 'block store is not row[:, j0:j1] (%s)' % txt, il)
             continue
